@@ -152,7 +152,8 @@ func (d *dispatcher) VerifEntryState(key []byte) VerifEntry {
 
 // ---- actions for the real binary, configured through the environment ----
 //
-// VERIF_CLOCK_FILE  file holding an offset in seconds added to the real clock (re-read on every call)
+// VERIF_CLOCK_FILE  file holding an offset in seconds added to the real clock, or "=<seconds>" for an
+//                   absolute time replacing the real clock (re-read on every call)
 // VERIF_EVENT_FILE  every hook point reached is appended as "<unix nano> <pid> <name> <n>"
 // VERIF_POINTS      ";" separated actions: name=kill@N (SIGKILL self the N-th time the point is
 //                   reached), name=sleep(ms)@P (sleep ms with probability P percent)
@@ -173,7 +174,13 @@ func init() {
 			offset := int64(0)
 			buf, err := ioutil.ReadFile(clockFile)
 			if err == nil {
-				offset, _ = strconv.ParseInt(strings.TrimSpace(string(buf)), 10, 64)
+				text := strings.TrimSpace(string(buf))
+				// "=<seconds>": an absolute time, the real clock is not used at all
+				if strings.HasPrefix(text, "=") {
+					abs, _ := strconv.ParseInt(text[1:], 10, 64)
+					return abs
+				}
+				offset, _ = strconv.ParseInt(text, 10, 64)
 			}
 			return time.Now().Unix() + offset
 		})
